@@ -4,6 +4,7 @@ import numpy as np
 
 import impl
 from impl import spne
+import ref as R
 
 
 def _quad(r, dim):
@@ -210,7 +211,7 @@ def run(seed=0, tier="quick", aimed=None):
             r2 = impl.rng(seed, "c05domain", t, dim)
             while True:
                 shape = tuple(int(v) for v in r2.integers(6, 12, size=dim))
-                if len(set(shape)) == dim:
+                if len(set(shape)) == dim and shape[-1] % 2 == (t % 2):      # odd and even cell counts along x
                     break
             xr = float(r2.uniform(0.5, 3.0))
             sims = []
@@ -247,6 +248,25 @@ def run(seed=0, tier="quick", aimed=None):
                 e = impl.relerr(out_[I_], np.full_like(out_[I_], 2 * float(np.sum(q_))))
                 if e > tol:
                     return fail("laplacian_on_simulator_coordinates", e, info)
+                # the velocity a Navier-Stokes step recovers is the centred curl of ITS stream function with 1/(2 dx), whatever the
+                # prefactor the simulator forms (odd / even cell counts, any x_range)
+                if name in ("ns2d", "ns3d"):
+                    sim.vorticity_field[...] = r2.normal(size=sim.vorticity_field.shape)
+                    with warnings.catch_warnings():
+                        warnings.simplefilter("ignore")
+                        sim.time_step(dt=1e-3)
+                    psi = np.asarray(sim.stream_func_field, dtype=np.float64)
+                    u = np.asarray(sim.velocity_field, dtype=np.float64)
+                    if dim == 2:
+                        I2 = (slice(1, -1), slice(1, -1))
+                        want_u = np.array([R.dc(psi, 1), -R.dc(psi, 0)]) / (2 * dxs)
+                        e = impl.relerr(u[(slice(None),) + I2], want_u)
+                    else:
+                        I3 = (slice(None),) + (slice(1, -1),) * 3
+                        e = impl.relerr(u[I3], R.curl3(psi) / (2 * dxs))
+                    cases += 1
+                    if e > 1e-10:
+                        return fail("velocity_recovery_prefactor_1_over_2dx", e, info)
     return {"ok": True, "cases": cases, "failing_input": None, "samples": samples}
 
 
